@@ -638,6 +638,35 @@ Proof.
   - vm_compute. reflexivity.
 Qed.
 
+(** ** what the loader guarantees of redirect handlers (fix: 6c5864d, C20-F1b):
+    the code of a redirect handler that could be created is 0 (302) or in 300..399,
+    so the redirect-code part of [good_eh] holds for every loaded redirect handler
+    and [redirect200_rule] cannot be loaded any more *)
+Definition loader_created (h : ehstep) : Prop :=
+  match e_kind h with
+  | EhReal (MRedirect code to) => create_redirect code to = Some (MRedirect code to)
+  | _ => True
+  end.
+
+Theorem loader_redirect_never_success h :
+  loader_created h -> good_cond (e_if h) ->
+  match e_kind h with EhFails e => good_err e | EhPanics v => good_panic v | _ => True end ->
+  good_eh h /\
+  match e_kind h with
+  | EhReal (MRedirect code _) => 300 <= redirect_status code <= 399 /\ success_like (redirect_status code) = false
+  | _ => True
+  end.
+Proof.
+  unfold loader_created, good_eh. intros L G K.
+  destruct (e_kind h) as [[|code to|realm]|e|v|]; auto.
+  destruct (created_redirect_code (c_respond plain_config) o0 code to _ (Sentinel KInternal) L) as (_ & R & _ & S & _).
+  auto.
+Qed.
+
+Theorem success_redirect_rule_not_loadable :
+  ~ Forall loader_created (eh redirect200_rule).
+Proof. intro F. inversion F as [|? ? H _]. unfold loader_created in H. simpl in H. discriminate. Qed.
+
 (** ** non-vacuity: a pipeline with a falling-back authenticator, a skipped
     step, a failing continue-on-error step and a conditional error pipeline
     satisfies the hypotheses and succeeds; the same pipeline with a failing
